@@ -604,6 +604,8 @@ func runC15(c *core.Ctx) {
 	// accessors slice and parse without checks of their own and panic on a malformed value (shared with C12 D5)
 	c.Clause("D9", func() { runBinaryPointDispatch(c) })
 
+	c.Clause("D10", func() { runCallArgsGuarded(c) })
+
 	c.Clause("D7", func() {
 		n := connPoisonRule(c, "failed-exchange-poisons-connection")
 		c.Floor("exchange sites on pooled connections", n, 28)
